@@ -1029,9 +1029,10 @@ pub fn monitors_e2e(trace: &Trace, sc: &Scenario, mon: &mut crate::Mon) {
     if dup > 0 {
         mon.count("e2e-scenario-with-duplicates");
     }
-    // duplicates are probes: at most one extra copy per datagram, on another uplink
+    // duplicates are probes: at most one copy per uplink (several uplinks can be gated, and probed, at the same time;
+    // twice on ONE uplink is judged above)
     for (seq, v) in &seen_on {
-        if v.len() > 2 {
+        if v.len() > links.len().max(2) {
             mon.fail("C01", "e2e-many-copies", format!("real event loop [{what}]: datagram {seq} went on the wire {} times (uplinks {v:?})", v.len()));
         }
     }
